@@ -64,7 +64,7 @@ struct Inst {
 	Req latest;
 	PlanVec plan;
 	bool tasksAdded = false;
-	bool succMay[8] = {}, succMust[8] = {}, failMay[8] = {}, failMust[8] = {};
+	bool succMay[32] = {}, succMust[32] = {}, failMay[32] = {}, failMust[32] = {};
 	Req prevExpected;
 	bool prevLenientEmptyOk = false;   // after replayTransition(INVALID): unchanged or empty
 	bool loggerAttached = false;
@@ -97,7 +97,7 @@ struct Inst {
 	}
 	bool anySuccMay() const { for (unsigned i = 0; i < N; ++i) if (succMay[i]) return true; return false; }
 	bool anyFailMay() const { for (unsigned i = 0; i < N; ++i) if (failMay[i]) return true; return false; }
-	void clearStatuses(bool may) { for (unsigned i = 0; i < 8; ++i) { succMust[i] = failMust[i] = false; if (may) succMay[i] = failMay[i] = false; } }
+	void clearStatuses(bool may) { for (unsigned i = 0; i < 32; ++i) { succMust[i] = failMust[i] = false; if (may) succMay[i] = failMay[i] = false; } }
 	void clearStatus(unsigned i) { succMay[i] = succMust[i] = failMay[i] = failMust[i] = false; }
 };
 
@@ -780,7 +780,7 @@ inline void World::closePlanWindow(Inst& in) {
 			if (in.latest.same(asReq)) {
 				// indistinguishable: a callback requested the very transition the last task describes
 				in.plan.clear();
-				for (unsigned i = 0; i < 8; ++i) { in.succMay[i] = in.failMay[i] = true; in.succMust[i] = in.failMust[i] = false; }
+				for (unsigned i = 0; i < 32; ++i) { in.succMay[i] = in.failMay[i] = true; in.succMust[i] = in.failMust[i] = false; }
 				stats.add("ambiguous_plan_steps");
 				return;
 			}
